@@ -24,6 +24,10 @@ def run(prog, rep):
     # 'reading a block through the open object gives the same result as decoding the bytes stored on disk': the entry a read uses is
     # looked up in the table itself (first entry of the type / the slot asked for), not in an index kept beside it
     from .c11 import lookup_contract
+    # the object agrees with the disk also after a call the HANDLE refuses: no table change may precede the first write in a
+    # state where the handle cannot write (allow_write() issued inside a context that was entered read-only)
+    from .c08 import table_effects_need_writable
+    rep.attempt(table_effects_need_writable, ct, rep, "object-follows-file")
     rep.attempt(lookup_contract, ct, rep)
     rep.attempt(lambda: M.get_block_reads_disk(ct, rep))
     # the table written to disk re-parses to the table in memory: TdfEntry codec symmetric field by field (dates included)
